@@ -491,16 +491,14 @@ inductive Outcome where
   | err (status : Nat)
   deriving Repr, DecidableEq
 
-def lastEhStatus (env : Env) : List Ev → Option Nat
-  | [] => none
-  | e :: rest =>
-    match lastEhStatus env rest with
-    | some s => some s
-    | none =>
-      match e with
-      | .call _ (.eh k) => some (env.status k)
-      | .call _ .ehDefault => some 500
-      | _ => none
+/-- the status of the response an error handler produces (the framework's handler: 500) -/
+def ehStatus (env : Env) : Kind → Nat
+  | .eh k => env.status k
+  | _ => 500
+
+/-- the response of the last error handler that ran -/
+def lastEhStatus (env : Env) (evs : List Ev) : Option Nat :=
+  ((evs.filter (fun e => isEh e.kind)).getLast?).map (fun e => ehStatus env e.kind)
 
 structure Run where
   evs : List Ev
